@@ -61,6 +61,8 @@ func canonExpr(fset *token.FileSet, info *types.Info, e ast.Expr, roles map[type
 //	           pushes exactly the intervals {begin, maxi} and {maxi, end};
 //	#order     the left interval is pushed last, so that it is popped first and points are emitted
 //	           in input order;
+//	#early     the iterative version has no return before its end (the reference has no special
+//	           case before its scan);
 //	#emit      a leaf emits its first point only, and the last point of the input is appended once
 //	           after the loop (the reference emits first and last of every leaf and drops the
 //	           duplicate when it concatenates).
@@ -73,7 +75,7 @@ func init() {
 		Name:  "DP-SIBLINGS",
 		IR:    "ast",
 		Props: []string{"C34"},
-		Floor: 5,
+		Floor: 6,
 		Doc:   "the iterative Douglas-Peucker simplification makes the same decisions as the recursive reference: same farthest-point scan (arguments, range, strict maximum), same threshold comparison, the same split point for both halves, left half processed first, one point emitted per leaf plus the final point once",
 		Run:   runDPSiblings,
 	})
@@ -342,5 +344,32 @@ func runDPSiblings(c *Ctx) []Obligation {
 	emitOK := elseTxt == "POINTS[BEGIN];" && tail == "POINTS[len(POINTS) - 1]"
 	add("emit", iif.Pos(), emitOK, "a leaf emits its first point only; the last input point is appended once after the loop",
 		fmt.Sprintf("leaf emission changed (else branch: %s; after the loop: %s): the reference yields each leaf's first point and the final point exactly once", strings.TrimSpace(elseTxt), tail))
+	// #early: the reference has no special case before its scan (its two returns are the two arms of
+	// the threshold test), so the iterative version has none either: its only return is its last
+	// statement. A shortcut for some tolerance or some input length answers differently from the
+	// reference for exactly those inputs.
+	var early *ast.ReturnStmt
+	ast.Inspect(iter.Body, func(n ast.Node) bool {
+		if _, isLit := n.(*ast.FuncLit); isLit {
+			return false
+		}
+		if ret, ok := n.(*ast.ReturnStmt); ok && ast.Stmt(ret) != iter.Body.List[len(iter.Body.List)-1] && early == nil {
+			early = ret
+		}
+		return true
+	})
+	epos := iter.Pos()
+	etxt := ""
+	if early != nil {
+		epos = early.Pos()
+		etxt = srcText(c.Fset, early)
+		for _, anc := range enclosing(iter.Body, early) {
+			if ifs, ok := anc.(*ast.IfStmt); ok {
+				etxt = "if " + srcText(c.Fset, ifs.Cond) + " { " + etxt + " }"
+			}
+		}
+	}
+	add("early", epos, early == nil, "the iterative version returns only at its end, like the reference, which has no special case before its scan",
+		fmt.Sprintf("the iterative version returns early (%s) where the reference has no special case: for the inputs that take this shortcut the two can differ", etxt))
 	return out
 }
